@@ -29,11 +29,12 @@ const (
 	KModifies
 	KCover
 	KAssertCall // call-site assertion on a callee: "atcall KEY requires EXPR"
+	KReturns    // "returns EXPR": the single result is exactly EXPR (used as a definition at call sites)
 	KValInv     // invariant of every value of a struct type stored in a map: "valinv T (v T) :: EXPR"
 )
 
 func (k ClauseKind) String() string {
-	return [...]string{"requires", "ensures", "invariant", "modifies", "cover", "atcall", "valinv"}[k]
+	return [...]string{"requires", "ensures", "invariant", "modifies", "cover", "atcall", "returns", "valinv"}[k]
 }
 
 type Clause struct {
@@ -97,10 +98,11 @@ type PkgSpec struct {
 	Uses     []string // trusted spec files used
 	Stable   []string
 	Guarded  map[string]string // component -> mutex expr
-	GenFiles map[string][]byte
+	GenFiles  map[string][]byte
+	InlineExt []string
 }
 
-var kwRe = regexp.MustCompile(`^(requires|ensures|modifies|cover|loop|results|nopanic|inline|unroll|atcall|handler|intmode)\b`)
+var kwRe = regexp.MustCompile(`^(requires|ensures|returns|modifies|cover|loop|results|nopanic|inline|unroll|atcall|handler|intmode)\b`)
 
 // readSpecLines extracts the //@ lines of a file ("\" continues a line).
 func readSpecLines(path string) ([]string, []int, error) {
@@ -141,7 +143,22 @@ func readSpecLines(path string) ([]string, []int, error) {
 var labelRe = regexp.MustCompile(`\s#([A-Za-z0-9_.\-]+)`)
 var tagRe = regexp.MustCompile(`\s@([A-Z0-9,]+)\s*$`)
 
+var timeoutRe = regexp.MustCompile(`\s%([0-9]+)\s*$`)
+
+// clauseTimeouts remembers "%N" suffixes (per-solver seconds) by label.
+var clauseTimeouts = map[string]int{}
+
 func splitLabelTags(s string) (text, label string, tags []string) {
+	tmo := 0
+	if m := timeoutRe.FindStringSubmatchIndex(s); m != nil {
+		tmo, _ = strconv.Atoi(s[m[2]:m[3]])
+		s = s[:m[0]]
+	}
+	defer func() {
+		if tmo > 0 && label != "" {
+			clauseTimeouts[label] = tmo
+		}
+	}()
 	if m := tagRe.FindStringSubmatchIndex(s); m != nil {
 		tags = strings.Split(s[m[2]:m[3]], ",")
 		s = s[:m[0]]
@@ -201,6 +218,8 @@ func parseSpecFile(path string, ps *PkgSpec, trustedFile bool) error {
 			ps.Imports[alias] = p
 		case strings.HasPrefix(t, "use "):
 			ps.Uses = append(ps.Uses, strings.Fields(t)[1:]...)
+		case strings.HasPrefix(t, "inline_external "):
+			ps.InlineExt = append(ps.InlineExt, strings.TrimSpace(strings.TrimPrefix(t, "inline_external ")))
 		case strings.HasPrefix(t, "stable "):
 			ps.Stable = append(ps.Stable, strings.Fields(t)[1:]...)
 		case strings.HasPrefix(t, "guarded_by "):
@@ -216,20 +235,26 @@ func parseSpecFile(path string, ps *PkgSpec, trustedFile bool) error {
 			for _, c := range strings.Fields(parts[1]) {
 				ps.Guarded[c] = strings.TrimSpace(parts[0])
 			}
-		case strings.HasPrefix(t, "valinv "):
-			// valinv TYPE (v TYPE) :: EXPR #label @tags
-			rest := strings.TrimPrefix(t, "valinv ")
+		case strings.HasPrefix(t, "valinv ") || strings.HasPrefix(t, "typeinv "):
+			// valinv TYPE (v TYPE) :: EXPR #label @tags     invariant of map-held values (checked at stores)
+			// typeinv PKGPATH.TYPE (v T) :: EXPR            assumed invariant of a library type (trusted)
+			isType := strings.HasPrefix(t, "typeinv ")
+			rest := strings.TrimPrefix(strings.TrimPrefix(t, "valinv "), "typeinv ")
 			sp := strings.Index(rest, " ")
 			tname := rest[:sp]
 			text, label, tags := splitLabelTags(" " + rest[sp+1:])
 			var fs *FuncSpec
+			key := "valinv:" + tname
+			if isType {
+				key = "typeinv:" + tname
+			}
 			for _, x := range ps.Funcs {
-				if x.Key == "valinv:"+tname {
+				if x.Key == key {
 					fs = x
 				}
 			}
 			if fs == nil {
-				fs = &FuncSpec{Key: "valinv:" + tname, Ghost: true, File: path, Line: ln}
+				fs = &FuncSpec{Key: key, Ghost: true, Trusted: isType, File: path, Line: ln}
 				ps.Funcs = append(ps.Funcs, fs)
 			}
 			fs.Clauses = append(fs.Clauses, &Clause{Kind: KValInv, Text: text, Label: label, Tags: tags, File: path, Line: ln, Callee: tname})
@@ -362,7 +387,7 @@ func parseSpecFile(path string, ps *PkgSpec, trustedFile bool) error {
 				cur.Clauses = append(cur.Clauses, &Clause{Kind: KAssertCall, Callee: strings.TrimSpace(rest[:idx]), Text: text, Label: label, Tags: tags, File: path, Line: ln, Overrides: overrides})
 			default:
 				text, label, tags := splitLabelTags(" " + rest)
-				kind := map[string]ClauseKind{"requires": KRequires, "ensures": KEnsures, "cover": KCover}[kw]
+				kind := map[string]ClauseKind{"requires": KRequires, "ensures": KEnsures, "cover": KCover, "returns": KReturns}[kw]
 				cur.Clauses = append(cur.Clauses, &Clause{Kind: kind, Text: text, Label: label, Tags: tags, File: path, Line: ln})
 			}
 		default:
@@ -720,6 +745,7 @@ func (ps *PkgSpec) generate(trustedDir string) error {
 		ps.RawGo = append(ps.RawGo, tp.RawGo...)
 		ps.Funcs = append(ps.Funcs, tp.Funcs...)
 		ps.Stable = append(ps.Stable, tp.Stable...)
+		ps.InlineExt = append(ps.InlineExt, tp.InlineExt...)
 	}
 	var mainBody strings.Builder
 	mainBody.WriteString(preludeGo)
@@ -738,7 +764,7 @@ func (ps *PkgSpec) generate(trustedDir string) error {
 	for _, fs := range ps.Funcs {
 		var recvDecl, paramDecl, resDecl string
 		var pnames, rnames []string
-		if strings.HasPrefix(fs.Key, "valinv:") {
+		if strings.HasPrefix(fs.Key, "valinv:") || strings.HasPrefix(fs.Key, "typeinv:") {
 			for _, c := range fs.Clauses {
 				n++
 				c.GoName = fmt.Sprintf("spec_%d_%s", n, c.Kind)
@@ -841,6 +867,12 @@ func (ps *PkgSpec) generate(trustedDir string) error {
 				}
 			case KEnsures, KCover:
 				fmt.Fprintf(body, "func %s(%s) bool { return %s }\n", c.GoName, join(params, resDecl), conv(c.Text))
+			case KReturns:
+				rt := strings.TrimSpace(resDecl)
+				if i := strings.Index(rt, " "); i > 0 {
+					rt = rt[i+1:]
+				}
+				fmt.Fprintf(body, "func %s(%s) %s { return %s }\n", c.GoName, params, rt, conv(c.Text))
 			case KInvariant:
 				fmt.Fprintf(body, "func %s(%s) bool { return %s }\n", c.GoName, join(params, strings.Join(c.Locals, ", ")), conv(c.Text))
 			case KModifies:
